@@ -424,3 +424,60 @@ def check_long_entries(case, rec):
                         sig=case["kind"] + "_update wrong on a long entry")
     rec.note("kind=" + case["kind"], "n=%d" % n)
     rec.nontrivial_enum()
+
+
+# --------------------------------------------------------------------------- #
+# netting many categories into one
+
+
+def enum_merges(tier, shard, nshards):
+    """reindexed() with a mapping that nets k = 2..9 listed categories into ONE output value ("Other"), over periodic /
+    first-appearance-ordered / blocked data: the merged entry is the union of k interleaved row-id lists."""
+    i = 0
+    for k in range(2, 10):
+        for n in ((3 * k + 1, 40, 200) if tier == "quick" else (3 * k + 1, 40, 200, 1000)):
+            for layout in ("round_robin", "blocks", "reversed_round_robin"):
+                for target in ("new", "listed", "common"):
+                    for shift in (True, False):
+                        for two_d in (False, True):
+                            if i % nshards == shard:
+                                yield {"k": k, "n": n, "layout": layout, "target": target, "shift": shift, "two_d": two_d,
+                                       "assume_unique": bool(i % 2)}
+                            i += 1
+
+
+def check_merges(case, rec):
+    import numpy
+
+    from .cubes import build_index, dense_of
+    from .machine import wellformed
+
+    k, n = case["k"], case["n"]
+    a = numpy.zeros(n, dtype=numpy.int64)  # 0 = the dominant (common) value: every third row
+    for r in range(n):
+        if r % 3 == 0:
+            continue
+        j = (r - r // 3 - 1)
+        if case["layout"] == "round_robin":
+            a[r] = 1 + j % k
+        elif case["layout"] == "reversed_round_robin":
+            a[r] = k - j % k
+        else:
+            a[r] = 1 + min(k - 1, (j * k) // max(1, n - n // 3))
+    a[0] = 50  # one more listed value that is not merged
+    dense = numpy.column_stack([a, a[::-1]]) if case["two_d"] else a
+    ix = build_index(dense, 0)
+    target = {"new": 100, "listed": 50, "common": 0}[case["target"]]
+    mapping = {v: target for v in range(1, k + 1)}
+    what = "reindexed(%d categories -> %d, shift=%s) over %d rows (%s)" % (k, target, case["shift"], n, case["layout"])
+    with libcall(what):
+        out = ix.reindexed(dict(mapping), shift=case["shift"], assume_unique=case["assume_unique"] and case["target"] == "new")
+    want = dense.copy()
+    for v in range(1, k + 1):
+        want[dense == v] = target
+    wellformed(out, what, "reindexed (merge of many categories)")
+    got = dense_of(out)
+    if got.shape != want.shape or not numpy.array_equal(got, want):
+        raise Violation("%s: the result does not stand for the recoded array" % what, sig="reindexed merge wrong content")
+    rec.note("k=%d" % k, "layout=" + case["layout"], "target=" + case["target"])
+    rec.nontrivial_enum()
